@@ -1017,9 +1017,9 @@ func runSeq07(r *Run, g *c07gen, sq *seq07, nOps int, toModel bool) {
 				report("ids_unique", "C07/ids_unique/namespace", "empty namespace changed identities")
 			}
 		case "hash":
-			// C07_ids_unique_hash_partial: equal hash lengths and no plain resource already carrying a hashed name
-			if uniqB && c07HashSideConditions(before, hashTab) && !uniqA {
-				report("ids_unique", "C07/ids_unique/hash", "ids were unique, no plain resource carried a hashed name, yet ids clash after hashing: "+c07CoqState(after))
+			// C07_ids_unique_hash: since fix 9a490e0 the HashTransformer re-checks the ids it produced
+			if uniqB && !uniqA {
+				report("ids_unique", "C07/ids_unique/hash", "ids were unique before the hash step and clash afterwards: "+c07CoqState(after))
 			}
 		case "prefix", "suffix":
 			if uniqB && !c07AnyEmpty(before) && c07UniformKinds(before) && !uniqA {
